@@ -17,6 +17,7 @@ import (
 	"fmt"
 	"math/rand"
 	"os"
+	"runtime/debug"
 	"sort"
 	"strconv"
 	"strings"
@@ -33,11 +34,12 @@ var c11Factors = [][]string{
 	// transform; the last four are degenerate blocks that Scheduler.AddJob accepts: JavascriptTransform
 	// without Code / with empty Code (runs as if there were no transform), with Code that defines
 	// no transform_entities function, HttpTransform without Url
-	{"none", "js1", "js3", "http", "js5", "jsNoCode", "jsEmptyCode", "jsNoFunc", "httpNoUrl"},
-	{"dataset", "devnull", "console", "http"},                                 // sink
-	{"cron", "onchange"},                                                      // trigger
-	{"incremental", "fullsync"},                                               // job type
-	{"none", "log", "rerun", "log+rerun", "requeue"},                          // error handlers
+	// jsDropAll: a JS transform that filters every entity away (the sink is handed empty batches)
+	{"none", "js1", "js3", "http", "js5", "jsNoCode", "jsEmptyCode", "jsNoFunc", "httpNoUrl", "jsDropAll"},
+	{"dataset", "devnull", "console", "http"}, // sink
+	{"cron", "onchange"},                             // trigger
+	{"incremental", "fullsync"},                      // job type
+	{"none", "log", "rerun", "log+rerun", "requeue"}, // error handlers
 	// fault; the stall values need an HttpDatasetSource: its remote end stalls (never answers /
 	// stops in the middle of the body) and the run is killed while it stalls
 	{"none", "fail", "stallHeaders", "stallBody"},
@@ -124,8 +126,12 @@ func (c c11Cfg) faultPlace() string {
 	switch {
 	case c.Source == "slow":
 		return "kill" // killed while the source sleeps
+	case c.Sink == "http" && c.Transform == "jsDropAll":
+		return "sink-rejects-every-batch" // also the empty ones the filtering transform leaves
 	case c.Sink == "http":
 		return "sink-rejects-entity"
+	case c.Sink == "dataset" && c.Transform == "jsDropAll":
+		return "sink-dataset-missing"
 	case c.Transform == "http":
 		return "transform-400"
 	case c.Transform == "js1" || c.Transform == "js3" || c.Transform == "js5":
@@ -289,6 +295,32 @@ func c11Sweep(ctx *Ctx) error {
 			}
 			chosen = c11Cover(regular, t, rand.New(rand.NewSource(base)))
 			chosen = append(chosen, c11Cover(degen, 2, rand.New(rand.NewSource(base+1)))...)
+			// error-handling cluster: a 4-way interaction (filtering transform x failing sink x per-entity
+			// error handler x fault) that a 3-wise cover does not guarantee; enumerated in full, the
+			// source cycles through all values
+			have := map[string]bool{}
+			for _, c := range chosen {
+				have[c.key()] = true
+			}
+			n := int(base)
+			for _, hd := range []string{"log", "log+rerun", "rerun"} {
+				for _, sk := range []string{"http", "dataset"} {
+					for _, tg := range c11Factors[3] {
+						for _, jt := range c11Factors[4] {
+							src := c11Factors[0][n%len(c11Factors[0])]
+							n++
+							if src == "slow" { // its fault is the kill
+								src = "sample"
+							}
+							c := c11Cfg{Source: src, Transform: "jsDropAll", Sink: sk, Trigger: tg, JobType: jt, Handlers: hd, Fault: "fail", Dev: true}
+							if !have[c.key()] {
+								have[c.key()] = true
+								chosen = append(chosen, c)
+							}
+						}
+					}
+				}
+			}
 		}
 		for i, c := range chosen {
 			if i%shards == idx%shards {
@@ -378,7 +410,6 @@ func c11What(b map[string]any) string {
 	return string(j)
 }
 
-
 // ---------------------------------------------------------------- one configuration (sub-child)
 
 const (
@@ -436,6 +467,9 @@ func c11JobConfig(cfg c11Cfg, id string, h *c11Hub, loop *c11Loop) map[string]an
 		transform = map[string]any{"Type": "JavascriptTransform", "Parallelism": 3, "Code": c11JS(id, 2000, place == "transform-throws")}
 	case "js5":
 		transform = map[string]any{"Type": "JavascriptTransform", "Parallelism": 5, "Code": c11JS(id, 2000, place == "transform-throws")}
+	case "jsDropAll":
+		code := fmt.Sprintf(`function transform_entities(entities) { Log("c11:enter:%[1]s:" + entities.length); Log("c11:exit:%[1]s:0"); return []; }`, id)
+		transform = map[string]any{"Type": "JavascriptTransform", "Parallelism": 1, "Code": base64.StdEncoding.EncodeToString([]byte(code))}
 	case "http":
 		transform = map[string]any{"Type": "HttpTransform", "Url": loop.url() + "/tr/" + id + "/" + mode("transform-400")}
 	case "jsNoCode":
@@ -460,7 +494,11 @@ func c11JobConfig(cfg c11Cfg, id string, h *c11Hub, loop *c11Loop) map[string]an
 	case "console":
 		sink = map[string]any{"Type": "ConsoleSink", "Prefix": "c11 "}
 	case "http":
-		sink = map[string]any{"Type": "HttpDatasetSink", "Url": loop.url() + "/sink/" + id + "/" + mode("sink-rejects-entity")}
+		m := mode("sink-rejects-entity")
+		if place == "sink-rejects-every-batch" {
+			m = "failall"
+		}
+		sink = map[string]any{"Type": "HttpDatasetSink", "Url": loop.url() + "/sink/" + id + "/" + m}
 	}
 	var handlers []any
 	for _, hn := range strings.Split(cfg.Handlers, "+") {
@@ -510,6 +548,9 @@ func c11RunOne(ctx *Ctx, cfg c11Cfg) (rerr error) {
 	caseID := outHash(cfg)
 	nopt, tags := cfg.optionalFeatures()
 	o.Case(caseID, ctx.Seed, cfg, nopt >= 2, tags)
+	// an unbounded recursion in the hub shall end this process after 64 MB of stack, not after the
+	// default 1 GB (the verdict - process died with "stack overflow" - is the same, it only comes sooner)
+	debug.SetMaxStack(64 << 20)
 	dir := ctx.NewDir("c11hub")
 	defer os.RemoveAll(dir)
 	h, err := c11OpenHub(dir, c11SweepPoolIncr, c11SweepPoolFull, cfg.Dev)
@@ -612,6 +653,10 @@ func c11RunOne(ctx *Ctx, cfg c11Cfg) (rerr error) {
 			}
 			if n := c11JudgeStuck(h, viol); n > 0 {
 				o.Stat("sweep.runs_blocked_forever", int64(n))
+				return false
+			}
+			if n := c11JudgeRecursion(h, viol); n > 0 {
+				o.Stat("sweep.runs_recursing_without_end", int64(n))
 				return false
 			}
 			if killSeq > 0 {
@@ -850,6 +895,5 @@ func (h *c11Hub) writeEntitiesNoEmit(ds string, from, to, v int) error {
 	ents := h.mkEntities(from, to, v)
 	return d.StoreEntities(ents)
 }
-
 
 var _ = sort.Strings
